@@ -133,6 +133,13 @@ def server_reset(chk, rule: str):
                 chk.check(src(v) in ("bytearray()", "bytearray(b'')"), rule, f"{site} | download buffer starts empty", f.loc(b.ast), f"_buffer = {src(v)}")
     # nobody else clears or replaces the buffer conditionally on its old state
     sd = repo.func(SV, "SdoServer.segmented_download", f"{chk.prop}.{rule}")
+    # the last segment commits the transfer whatever it carries (an empty last segment closes a transfer, too)
+    fsd = ff_for(chk, sd, f"{chk.prop}.{rule}")
+    for c in [x for x in own_nodes(sd.node) if isinstance(x, ast.Call) and dotted(x.func) == "self._node.set_data"]:
+        g = [(fsd.norm(e, subst=False), p) for e, p in fsd.facts_at(fsd.stmt_of(c))]
+        extra = [(t, p) for t, p in g if not (t == fsd.canon("command & NO_MORE_DATA") and p) and "self._toggle" not in t and "TOGGLE_BIT" not in t]
+        chk.check(not extra, rule, f"{SV}:SdoServer.segmented_download | last segment always committed", sd.loc(c),
+                  f"set_data for the completed download runs only under {extra}: a last segment for which that does not hold is acknowledged but the value is never stored")
     lazy = [n for n in own_nodes(sd.node) if isinstance(n, ast.If) and "_buffer" in src(n.test) and "None" in src(n.test)]
     chk.check(not lazy, rule, f"{SV}:SdoServer.segmented_download | no lazily created buffer", sd.loc(),
               f"`if {src(lazy[0].test)}` creates the buffer only when absent: data left by an unfinished transfer is prepended to the next download" if lazy else "")
